@@ -2,4 +2,6 @@
 EXTENDS UDFProtoTrace
 TrNoFeed == <<>>
 TrNoFaults == {}
+AllTraceFaults == {"endNoBegin", "beginNeg", "pointGap", "unknown", "readerr", "errorResp", "unsolInfo", "unsolInit",
+                   "unsolSnapshot", "unsolRestore", "unsolKeepalive", "close", "die"}
 =============================================================================
